@@ -565,7 +565,10 @@ def _known_history(v, findings):
         if f.get('exclude') == 'no_cache.resident_entry_not_in_archive' and v['clause'] == 'evicted_entries_are_archived' \
                 and v['state']['cls'] == 'no_cache':
             st = v['state']
-            if st.get('A') is not None and any(k not in st['A'] for k in st['mem']):
+            last = v['history'][-1]
+            e = str((last.get('call') or {}).get('key_elem'))
+            retrieval = last.get('op') == 'call' and (e in st['mem'] or (st.get('A') is not None and e in st['A']))
+            if retrieval and st.get('A') is not None and any(k not in st['A'] for k in st['mem']):
                 return True
     return False
 
